@@ -614,6 +614,22 @@ def job_key(name, sid, seed, net_seed):
     return f"{name}/script{sid}/seed{seed}/net{net_seed}"
 
 
+# small string sets whose iteration order the interpreters report: evidence that the hash-seed perturbation really
+# reorders unordered containers (the hash seeds in checks/c09.py were chosen so that all of them are reordered)
+PROBE_SETS = [
+    ["q loss", "q mean", "policy loss"],
+    ["q", "q_target", "policy", "policy_target"],
+    ["observation", "action", "reward", "next_observation", "termination"],
+    ["task-0", "task-1", "task-2"],
+    ["a", "b", "c"],
+    ["0", "1", "2", "3"],
+    ["return", "episode_length", "loss"],
+    ["policy", "value_function", "critic", "actor"],
+    ["Round Robin", "1-step Progress", "Monotonic Progress", "Best Reward", "Diversity"],
+    ["obs", "actions", "rewards", "terminations", "truncations"],
+]
+
+
 def main(argv):
     spec = json.loads(argv[1])
     cache = os.path.join(os.path.dirname(os.path.dirname(os.path.abspath(__file__))), ".cache", "jax")
@@ -625,7 +641,8 @@ def main(argv):
     except Exception:  # noqa: BLE001
         pass
     res = run_jobs(spec["jobs"], spec.get("perturb", {}))
-    info = dict(hashseed=os.environ.get("PYTHONHASHSEED"), hash_probe=hash("c09-probe") & 0xFFFF, repo=os.environ.get("VERIF_REPO", "/repo"))
+    info = dict(hashseed=os.environ.get("PYTHONHASHSEED"), hash_probe=hash("c09-probe") & 0xFFFF, repo=os.environ.get("VERIF_REPO", "/repo"),
+                probe_orders=[list(set(p)) for p in PROBE_SETS])
     sys.stdout.write("\nC09RESULT " + json.dumps(dict(results=res, info=info)) + "\n")
     sys.stdout.flush()
 
